@@ -150,6 +150,8 @@ def explore(ctx):
             res.failures.append({"what": "; ".join(bad[:4]), "input": inp, "real": {"mar": _b(r_["mar"])}})
         else:
             res.count("oracle:entrypoints-agree" + ("-bytes" if is_bytes else ""))
+    from .c01 import inheritance_probe
+    inheritance_probe(res, "codec")
     return res
 
 
@@ -163,6 +165,12 @@ def witness(fid):
 
 def replay(failure):
     inp = failure["input"]
+    if "inherit_case" in inp:
+        from .. import iso
+        from .c01 import _inherit_child
+        o = iso.map_isolated(_inherit_child, [tuple(inp["inherit_case"])], timeout=60.0)[0]
+        print(json.dumps({"case": inp["inherit_case"], "real": o}, indent=1))
+        return not (isinstance(o, dict) and o.get("codec") and o.get("json_is_marshal"))
     job = {"prog": inp["prog"], "ops": [{"op": "codec", "ty": inp["ty"], "val": inp["val"]}]}
     real, model = core.run_jobs([job])
     print(json.dumps({"annotation": inp["ann"], "value": inp["val"], "real": real[0][0]}, indent=1)[:4000])
